@@ -348,7 +348,7 @@ def doc_faults(rng, rule_doc, macro_files, rule_rel="rule.yaml", max_per_kind=6,
     cands.append(("malformed:unterminated_quote", text + 'zzz: "never closed\n'))
     cands.append(("malformed:two_documents", text + "---\n" + text))
     cands.append(("malformed:bad_escape", text + 'zzz: "bad \\q escape"\n'))
-    cuts = sorted({rng.randrange(1, max(2, len(text))) for _ in range(8)})
+    cuts = sorted({rng.randrange(1, max(2, len(text))) for _ in range(8)} | {max(1, len(text) - k) for k in (1, 2, 3, 5)})
     ncut = 0
     for c in cuts:
         if ncut >= 3:
@@ -379,6 +379,8 @@ def doc_faults(rng, rule_doc, macro_files, rule_rel="rule.yaml", max_per_kind=6,
     add("pattern_empty_list", _edit(rule_doc, ("pattern",), []), klass="pattern_entry")
 
     # ---- config entry
+    for lab, val in (("empty_str", ""), ("empty_list", []), ("zero", 0), ("false", False)):
+        add(f"config_falsy_{lab}", {**rule_doc, "config": val}, klass="config_entry")
     add("config_scalar", {**rule_doc, "config": "att"}, klass="config_entry")
     add("config_list", {**rule_doc, "config": ["style", "att"]}, klass="config_entry")
     add("config_null", {**rule_doc, "config": None}, klass="config_entry")
@@ -478,6 +480,11 @@ def doc_faults(rng, rule_doc, macro_files, rule_rel="rule.yaml", max_per_kind=6,
                     add(f"empty_group:nested:in_deref@{_p(pth)}", _edit(rule_doc, pth + ("$deref", "main_reg"), [{"$or": []}]), klass="empty_group")
                     add(f"not_arity:nested:in_deref@{_p(pth)}", _edit(rule_doc, pth + ("$deref", "main_reg"), [{"$not": ["%xmm7", nd["$deref"]["main_reg"]]}]), klass="not_arity")
 
+    if isinstance(pat, list) and pat:
+        for g in ("$or", "$and", "$and_any_order", "$not"):
+            add(f"empty_group:appended_last:{g}", _edit(rule_doc, ("pattern",), list(copy.deepcopy(pat)) + [{g: []}]), klass="empty_group")
+            add(f"empty_group:prepended_first:{g}", _edit(rule_doc, ("pattern",), [{g: []}] + list(copy.deepcopy(pat))), klass="empty_group")
+
     # times: on every instruction-level item of the top-level pattern and of groups
     if isinstance(pat, list):
         item_paths = []
@@ -499,7 +506,7 @@ def doc_faults(rng, rule_doc, macro_files, rule_rel="rule.yaml", max_per_kind=6,
         bad_times = [
             ("negative:int", -1), ("negative:int", -3), ("negative:min", {"min": -1, "max": 2}), ("negative:max", {"min": 0, "max": -1}),
             ("negative:both", {"min": -2, "max": -1}), ("inverted", {"min": 3, "max": 1}), ("inverted", {"min": 2, "max": 0}),
-            ("inverted", {"min": 9, "max": 8}), ("inverted", {"min": 40, "max": 39}),
+            ("inverted", {"min": 9, "max": 8}), ("inverted", {"min": 40, "max": 39}), ("negative:equal", {"min": -2, "max": -2}),
             ("negative:minonly", {"min": -2}), ("negative:maxonly", {"max": -1}), ("negative:min_maxnull", {"min": -3, "max": None}),
         ]
         for path, node in item_paths:
@@ -518,7 +525,7 @@ def doc_faults(rng, rule_doc, macro_files, rule_rel="rule.yaml", max_per_kind=6,
     # ---- macros
     have_defs = bool(rule_doc.get("macros")) or bool(macro_files)
     if have_defs:
-        UNDEF = "@never_defined"
+        UNDEF = rng.choice(["@never_defined", "@rax", "@m1", "@r8d", "@any_", "@x"])
         done = set()
         for path, node in nodes:
             if len(path) < 2:
